@@ -14,6 +14,7 @@ import (
 	. "adharness/common"
 
 	ad "github.com/pbenner/autodiff"
+	"github.com/pbenner/autodiff/algorithm/adam"
 	"github.com/pbenner/autodiff/algorithm/bfgs"
 	"github.com/pbenner/autodiff/algorithm/gradientDescent"
 	"github.com/pbenner/autodiff/algorithm/lineSearch"
@@ -158,6 +159,24 @@ func runSpec(s *Spec) (run *Run) {
 			args = append(args, rprop.ConstConstraints{Value: func(x ad.ConstVector) bool { return consVec(x) }})
 		}
 		res, err = rprop.RunGradient(rprop.DenseGradientF(lg.gradObjective(&s.Obj)), x0, s.Step0, []float64{s.Eta0, s.Eta1}, args...)
+	case "adam":
+		args := []interface{}{adam.Epsilon{Value: s.Eps}, adam.MaxIterations{Value: s.MaxIt},
+			adam.Beta1{Value: s.Eta0}, adam.Beta2{Value: s.Eta1}}
+		if s.Hook {
+			args = append(args, adam.Hook{Value: func(x, g ad.ConstVector, y ad.ConstScalar) bool {
+				e := Ev{K: "hook", X: vecVals(x), G: vecVals(g), Step: []float64{}}
+				if y != nil {
+					e.HasY, e.Y = true, y.GetFloat64()
+				}
+				e.B = hookVerdict()
+				lg.Ev = append(lg.Ev, e)
+				return e.B
+			}})
+		}
+		if s.Cons {
+			args = append(args, adam.ConstConstraints{Value: func(x ad.ConstVector) bool { return consVec(x) }})
+		}
+		res, err = adam.RunGradient(adam.DenseGradientF(lg.gradObjective(&s.Obj)), x0, args...)
 	case "gd":
 		args := []interface{}{gradientDescent.Epsilon{Value: s.Eps}}
 		if s.Hook {
@@ -274,6 +293,8 @@ func coqCase(s *Spec, r *Run) string {
 			c = "RRpropDense"
 		}
 		rt = fmt.Sprintf("%s (mkRp %s %s %s %s %s %s %s)", c, F(s.Step0), F(s.Eta0), F(s.Eta1), F(s.Eps), ZI(s.MaxIt), B(s.Hook), B(s.Cons))
+	case "adam":
+		rt = fmt.Sprintf("RAdam (mkAd %s %s %s %s %s %s %s %s)", F(0.001), F(s.Eta0), F(s.Eta1), F(s.Eps), F(1e-8), ZI(s.MaxIt), B(s.Hook), B(s.Cons))
 	case "gd":
 		rt = fmt.Sprintf("RGD (mkGd %s %s %s)", F(s.Step0), F(s.Eps), B(s.Hook))
 	case "ls":
@@ -384,7 +405,9 @@ func genBox(r *Rng, s *Spec) {
 
 func genSpec(r *Rng) Spec {
 	s := Spec{StopAt: -1, Cap: 600}
-	switch r.Pick([]int{4, 3, 3, 4, 5}) {
+	switch r.Pick([]int{4, 3, 3, 4, 5, 3}) {
+	case 5:
+		s.Routine = "adam"
 	case 0:
 		s.Routine = "rprop"
 	case 1:
@@ -403,6 +426,11 @@ func genSpec(r *Rng) Spec {
 	s.X0 = genPoint(r, n)
 	s.Obj = genObj(r, n)
 	s.Eps = pickF(r, 1e-1, 1e-2, 1e-4, 1e-6, 1e-8, 0)
+	if s.Obj.Kind == "sep" && r.Intn(6) == 0 {
+		// boundary of the stop test: start exactly at the minimiser (gradient exactly 0) with epsilon 0
+		s.X0 = append([]float64{}, s.Obj.D...)
+		s.Eps = 0
+	}
 	s.Hook = r.Intn(10) < 6
 	if s.Hook && r.Intn(4) == 0 {
 		s.StopAt = r.Range(0, 9)
@@ -417,11 +445,26 @@ func genSpec(r *Rng) Spec {
 		if r.Intn(3) == 0 {
 			genBox(r, &s)
 		}
+	case "adam":
+		s.Step0 = 0.001
+		s.Eta0 = pickF(r, 0.9, 0.9, 0.5, 0)
+		s.Eta1 = pickF(r, 0.999, 0.999, 0.9, 0.5)
+		s.MaxIt = []int{-1, 0, 1, 2, 5, 20, 60, 60}[r.Intn(8)]
+		if r.Intn(3) == 0 {
+			genBox(r, &s)
+		}
+		if r.Intn(3) == 0 { // close enough to the minimiser to pass the stop test within the cap
+			s.Eps = pickF(r, 1, 10)
+		}
 	case "gd":
 		s.Step0 = pickF(r, 0.01, 0.05, 0.1, 0.3)
 		s.Hook = true
 		if s.StopAt < 0 || r.Intn(2) == 0 {
 			s.StopAt = r.Range(0, 40)
+		}
+		if s.Eps != 0 && r.Intn(2) == 0 { // long enough to reach the stop test
+			s.StopAt = r.Range(40, 80)
+			s.Eps = pickF(r, 1e-1, 1e-2)
 		}
 		if r.Intn(15) == 0 {
 			s.Step0 = pickF(r, 3, 50) // diverges: panic path
